@@ -89,7 +89,7 @@ func seqCRL(id int, fresh bool, delta bool) *x509.RevocationList {
 	if delta {
 		number = 9
 	}
-	rl := makeCRL(number, nu, id, delta)
+	rl := makeCRLTagged(number, nu, id, delta) // (all of one size: what tells two entries apart is their content alone)
 	v, _ := seqCRLs.LoadOrStore(k, rl)
 	return v.(*x509.RevocationList)
 }
@@ -190,7 +190,15 @@ func corruptFile(path string, kind string) {
 	}
 	var c map[string]json.RawMessage
 	_ = json.Unmarshal(b, &c)
-	write := func(x []byte) { must(os.WriteFile(path, x, 0600)) }
+	// whatever corrupts a file from outside (bit rot, a restore, a careless copy) need not touch its time stamp: the damaged
+	// file keeps the modification time it had (and, where the damage keeps the length, its size)
+	fi0, _ := os.Stat(path)
+	write := func(x []byte) {
+		must(os.WriteFile(path, x, 0600))
+		if fi0 != nil {
+			_ = os.Chtimes(path, fi0.ModTime(), fi0.ModTime())
+		}
+	}
 	if !wellFormedEntry(b) {
 		// already broken: it stays broken whatever else is done to it (some corruptions are their own inverse - a second
 		// bit flip or field swap would repair the file)
@@ -282,6 +290,7 @@ func corruptFile(path string, kind string) {
 }
 
 func runCRLSeq() int {
+	crl.SetVerifWriteHook(func(point, temp, path string) { coarseMtime(point, temp) })
 	cases := readCases(*flagCases)
 	fn := func(c rawCase) []traceLine {
 		var in SeqIn
@@ -303,6 +312,10 @@ func runCRLSeq() int {
 		before := ""
 		cache, err := crl.NewFileCache(root)
 		must(err)
+		// every other store goes through a SECOND cache object on the same directory (another component of the program, another
+		// program): what is in the cache is what is in the directory
+		cache2, err := crl.NewFileCache(root)
+		must(err)
 		before = snapshotTree(parent, root)
 		ctx := context.Background()
 		// "no longer fresh" realised as JUST expired (a few cases per run): the next-update time lies a second ahead when the
@@ -321,7 +334,7 @@ func runCRLSeq() int {
 		if justExpired && atomic.AddInt32(&justExpiredCRLBudget, -1) < 0 {
 			justExpired = false
 		}
-		for _, op := range in.Ops {
+		for oi, op := range in.Ops {
 			u := urlFor(op.U)
 			var bundle *corecrl.Bundle
 			switch op.Op {
@@ -354,7 +367,11 @@ func runCRLSeq() int {
 			panicked, msg := guarded(func() {
 				switch op.Op {
 				case "Set", "SetNil":
-					if err := cache.Set(ctx, u, bundle); err != nil {
+					setter := cache
+					if (int(salt)+oi)%2 == 1 {
+						setter = cache2
+					}
+					if err := setter.Set(ctx, u, bundle); err != nil {
 						obs.Results = append(obs.Results, SeqRes{Kind: "error"})
 					} else {
 						obs.Results = append(obs.Results, SeqRes{Kind: "ok"})
